@@ -4,6 +4,7 @@ import (
 	"go/token"
 	"go/types"
 	"sort"
+	"strings"
 
 	"golang.org/x/tools/go/ssa"
 
@@ -153,6 +154,7 @@ func c20Threshold(c *eng.Ctx) {
 				continue
 			}
 			c.Prov(f, "configuration whose threshold gates reconstruction", call, tv, spec.thr...)
+			c20ArmConfig(c, f, call, tv)
 			// parameters: check what the callers pass
 			for _, o := range eng.Origins(tv) {
 				par, ok := o.Val.(*ssa.Parameter)
@@ -276,6 +278,68 @@ func c20Threshold(c *eng.Ctx) {
 			check(cc.Fn, held(cc.Fn, l, "Lock"), cc.Call, "call of "+hn, l)
 		}
 	}
+}
+
+// c20ArmConfig (R7, C20.3c): a function that may count the supplied shares
+// against either the recovery or the barrier configuration chooses by
+// seal.RecoveryKeySupported(): the shares handed to a seal with recovery keys
+// are recovery-key shares (the key rebuilt from them is checked with
+// VerifyRecoveryKey under that same predicate), so the threshold configured for
+// them is RecoveryConfig's; without recovery keys it is the barrier's (or the
+// raft leader's barrier configuration). Decided path-sensitively: the phi that
+// merges the candidate configurations is resolved with the predicate fixed.
+func c20ArmConfig(c *eng.Ctx, f *ssa.Function, call ssa.CallInstruction, tv ssa.Value) {
+	spec := c20Combiners[eng.FuncName(eng.TopFunc(f))]
+	both := 0
+	for _, p := range spec.thr {
+		if p == c20RecCfg || p == c20BarCfg {
+			both++
+		}
+	}
+	if both < 2 {
+		return // a single kind of configuration is allowed here: nothing to select
+	}
+	c.Clause("R7", "C20.3c")
+	const pred = `\.RecoveryKeySupported\(\)$`
+	site := "threshold configuration follows RecoveryKeySupported()"
+	if len(eng.CondEdges(f, pred, true)) == 0 {
+		c.Undecided(f, site, call.Pos(), "the function may use the recovery or the barrier configuration but no longer branches on RecoveryKeySupported()")
+		return
+	}
+	isRec := func(v ssa.Value) bool {
+		ex, ok := v.(*ssa.Extract)
+		if !ok || ex.Index != 0 {
+			return false
+		}
+		cl, ok := ex.Tuple.(*ssa.Call)
+		return ok && strings.HasSuffix(eng.CalleeName(&cl.Call), ".RecoveryConfig")
+	}
+	render := func(rs []ssa.Value) string {
+		var out []string
+		for _, r := range rs {
+			out = append(out, eng.Expr(r))
+		}
+		return strings.Join(out, ", ")
+	}
+	with := eng.Roots(tv, eng.Feasible(f, map[string]bool{pred: true}))
+	without := eng.Roots(tv, eng.Feasible(f, map[string]bool{pred: false}))
+	if len(with) == 0 || len(without) == 0 {
+		c.Undecided(f, site, call.Pos(), "the configuration could not be resolved on one of the two arms")
+		return
+	}
+	for _, r := range with {
+		if !isRec(r) {
+			c.Violation(f, site, call.Pos(), "with recovery keys supported the supplied (recovery-key) shares are counted against "+render(with)+", not the recovery configuration: the gate opens at the wrong threshold (an auto-seal's barrier configuration has threshold 1)", nil)
+			return
+		}
+	}
+	for _, r := range without {
+		if isRec(r) {
+			c.Violation(f, site, call.Pos(), "without recovery keys the supplied unseal shares are counted against the recovery configuration ("+render(without)+")", nil)
+			return
+		}
+	}
+	c.OK(f, site, call.Pos(), "RecoveryKeySupported: "+render(with)+"; otherwise: "+render(without))
 }
 
 // c20AccountedAppend: store X.f = append(X.f, share) is behind a loop over the same X.f that compares
